@@ -80,6 +80,15 @@ static inline std::vector<Item> pool()
     v.push_back({"... stream id differs", [] { return distinctive(0x45, ST::intermediarySegment, 0xFE); }, true});
     v.push_back({"... segment type differs", [] { return distinctive(0x44, ST::lastSegment, 0xFE); }, true});
     v.push_back({"... payload type differs, same bytes", [] { return distinctive(0x44, ST::intermediarySegment, 0xFD); }, true});
+    // one member per header field that differs from "all header fields distinctive" in that field ONLY
+    v.push_back({"... version differs", [] { auto p = distinctive(0x44, ST::intermediarySegment, 0xFE); p.setVersion(0x12); return p; }, true});
+    v.push_back({"... device id differs", [] { auto p = distinctive(0x44, ST::intermediarySegment, 0xFE); p.setDeviceId(0x2234); return p; }, true});
+    v.push_back({"... sequence counter differs", [] { auto p = distinctive(0x44, ST::intermediarySegment, 0xFE); p.setSequenceCounter(0x5567); return p; }, true});
+    v.push_back({"... interface id differs", [] { auto p = distinctive(0x44, ST::intermediarySegment, 0xFE); p.setInterfaceId(0x0F1E2D3D); return p; }, true});
+    v.push_back({"... vendor id differs", [] { auto p = distinctive(0x44, ST::intermediarySegment, 0xFE); p.setVendorId(0x4B5B); return p; }, true});
+    v.push_back({"... common flags differ", [] { auto p = distinctive(0x44, ST::intermediarySegment, 0xFE); p.setCommonFlags(0x62); return p; }, true});
+    v.push_back({"... timestamp high word differs", [] { auto p = distinctive(0x44, ST::intermediarySegment, 0xFE); p.setTimestamp(0x778899ABBBCCDDEEull); return p; }, true});
+    v.push_back({"... payload one byte longer", [] { auto p = distinctive(0x44, ST::intermediarySegment, 0xFE); Bytes d = pat(6, 2); p.setPayload(A::Payload(A::PayloadType(A::CmpHeader::MessageType::data, 0xFE), d.data(), d.size())); return p; }, true});
     v.push_back({"one-byte payload", [] { A::Packet p; uint8_t b = 0x5A; p.setPayload(A::Payload(A::PayloadType(0x01FEu), &b, 1)); return p; }, true});
     return v;
 }
